@@ -532,37 +532,44 @@ def check_cofone(res, facts):
         if not alls:
             rule.bad(key, "no check over the remaining limbs (all(is_zero))", fn.loc)
             continue
-        dep = DF.Dep(fn)
-        l = op_local(alls[0]["args"][0])
-        chain = dep.calls_in_slice([l]) if l is not None else []
-        pos = 0
+        from rules.c07 import E, show
         problems = []
-        for _, c in chain:
-            n = c["f"].get("name")
-            if n == "next":
-                pos += 1
-            elif n == "skip":
-                k = DF.direct_const(fn, c["args"][1]) if len(c["args"]) > 1 else None
-                if k is None or "v" not in k:
-                    problems.append("skip() with a non-constant count")
-                else:
-                    pos += k["v"]
-            elif n in ("step_by", "take", "rev", "filter", "skip_while", "take_while"):
-                problems.append("iterator adaptor %s() hides limbs from the zero test" % n)
-        if pos != 1:
+
+        def start(t):
+            """index of the first limb the iterator / slice expression visits (None: not a plain suffix of COFACTOR)"""
+            if t == "COFACTOR":
+                return 0
+            if isinstance(t, tuple) and t[0] == "call" and len(t) == 3:
+                n, a = t[1], t[2]
+                if n in ("iter", "into_iter") and len(a) == 1:
+                    return start(a[0])
+                if n == "skip" and len(a) == 2 and isinstance(a[1], int):
+                    s0 = start(a[0])
+                    return None if s0 is None else s0 + a[1]
+                if n == "index" and len(a) == 2 and isinstance(a[1], tuple) and a[1][:2] == ("agg", "RangeFrom") and isinstance(a[1][2][0], int):
+                    s0 = start(a[0])
+                    return None if s0 is None else s0 + a[1][2][0]
+            return None
+        recv = E(fn, alls[0]["args"][0])
+        pos = start(recv)
+        if pos is None:
+            problems.append("the zero test runs over %s, which is not a plain suffix of COFACTOR (limbs may be hidden from the test)" % show(recv)[:120])
+        elif pos != 1:
             problems.append("the zero test starts at limb %d instead of limb 1 (limb%s never inspected)" % (pos, "s 1..%d" % (pos - 1) if pos > 2 else (" 1" if pos == 2 else " 0 counted twice")))
         # limb 0 == 1
         eq1 = False
+        limb0 = ("proj", "COFACTOR", (("idx", 0),))
         for bi, si, s in fn.stmts():
             r = s.get("r")
-            if r and r["k"] == "bin" and r["op"] == "Eq" and any("k" in o and o["k"].get("v") == 1 for o in (r["a"], r["b"])):
-                eq1 = True
-        for _, c in calls:
-            if c["f"].get("name") in ("eq", "ne"):
-                for a in c["args"]:
-                    k = DF.direct_const(fn, a)
-                    if k is not None and (k.get("v") == 1 or any(d == "lit:1" for d in k.get("pdefs", []))):
-                        eq1 = True
+            if r and r["k"] == "bin" and r["op"] in ("Eq", "Ne") and {0: 0}.get(0) == 0:
+                ea, eb = E(fn, r["a"]), E(fn, r["b"])
+                if (ea, eb) in ((limb0, 1), (1, limb0)):
+                    eq1 = True
+        for _, c in fn.calls():
+            if c["f"].get("name") in ("eq", "ne") and len(c["args"]) == 2:
+                ea, eb = E(fn, c["args"][0]), E(fn, c["args"][1])
+                if (ea, eb) in ((limb0, 1), (1, limb0)):
+                    eq1 = True
         if not eq1:
             problems.append("limb 0 is not compared with 1")
         (rule.bad if problems else rule.ok)(key, "; ".join(problems) if problems else "limb 0 == 1 and all limbs from 1 are zero", fn.loc)
